@@ -14,14 +14,15 @@ import (
 // --check writes nothing and fails exactly when a rewrite would change the file.
 
 type c13Case struct {
-	Rule    string     `json:"rule"`
-	Ext     string     `json:"ext"`
-	Content string     `json:"content"`
-	All     bool       `json:"all"` // use --all instead of the rule argument
-	GitHub  bool       `json:"github"`
-	Lane    string     `json:"lane"`
-	Others  []c13Other `json:"others,omitempty"` // further test files in the same tree (state must not carry over between files)
-	Link    bool       `json:"link,omitempty"`   // the test file is a symbolic link to a file elsewhere below the root
+	Rule    string      `json:"rule"`
+	Ext     string      `json:"ext"`
+	Content string      `json:"content"`
+	All     bool        `json:"all"` // use --all instead of the rule argument
+	GitHub  bool        `json:"github"`
+	Lane    string      `json:"lane"`
+	Others  []c13Other  `json:"others,omitempty"` // further test files in the same tree (state must not carry over between files)
+	IO      *ioScenario `json:"io,omitempty"`     // an I/O-fault scenario (the other fields are unused then)
+	Link    bool        `json:"link,omitempty"`   // the test file is a symbolic link to a file elsewhere below the root
 }
 
 type c13Other struct {
@@ -193,6 +194,9 @@ func c13Bytes(s string) string {
 
 func c13Check(env *core.Env, cc core.Case) core.Verdict {
 	c0 := cc.(*c13Case)
+	if c0.IO != nil {
+		return ioScenarioCheck(env, "C13", c0.IO)
+	}
 	cp := *c0
 	cp.Content = c13Bytes(c0.Content)
 	cp.Others = nil
@@ -351,6 +355,9 @@ func init() {
 				} else {
 					cs = append(cs, c13Gen(rng, lane))
 				}
+			}
+			for _, sc := range ioCases("C13") {
+				cs = append(cs, &c13Case{Lane: "io", IO: sc})
 			}
 			return cs
 		},
